@@ -28,6 +28,7 @@ type Step struct {
 	Err         string `json:"err,omitempty"`          // error kind returned together with the last byte of Data (or alone)
 	PauseMs     int64  `json:"pause_ms,omitempty"`     // virtual time that passes before the data arrives
 	WaitWritten int    `json:"wait_written,omitempty"` // block until this many bytes were written to the conn (real time, bounded)
+	Hook        string `json:"hook,omitempty"`         // name passed to Conn.OnHook when the reader reaches this step (before its data)
 }
 
 // Fault is an injected result for a Write call.
@@ -80,6 +81,9 @@ type Conn struct {
 	WaitLimit time.Duration
 	// TimedOutWaiting is set when a real-time wait hit WaitLimit (harness trouble, not a verdict).
 	TimedOutWaiting bool
+	// OnHook, when set, is called (without the conn's lock) when the reader reaches a step with a Hook.
+	OnHook func(name string)
+	hooked map[int]bool
 }
 
 // New creates a scripted connection.
@@ -199,6 +203,17 @@ func (c *Conn) Read(p []byte) (int, error) {
 		}
 		if c.ri < len(c.s.Reads) {
 			st := &c.s.Reads[c.ri]
+			if st.Hook != "" && c.OnHook != nil && !c.hooked[c.ri] {
+				if c.hooked == nil {
+					c.hooked = map[int]bool{}
+				}
+				c.hooked[c.ri] = true
+				f, name := c.OnHook, st.Hook
+				c.mu.Unlock()
+				f(name)
+				c.mu.Lock()
+				continue
+			}
 			if st.WaitWritten > 0 && len(c.Written) < st.WaitWritten {
 				if !c.waitLocked(func() bool { return len(c.Written) >= st.WaitWritten || c.closed }) {
 					c.TimedOutWaiting = true
